@@ -13,11 +13,10 @@ Theorems about the model `Andes/Model/Config.lean` (tied to the real code by `ha
 * `malformed_option_rejected` — wrong `=` / `.` count anywhere in the list is an error
   (`empty_section_option_accepted` : `.x=1` is NOT rejected and lands in DEFAULT);
 * `alt_rejected` — a constructed config has every public field inside its tuple/set `_alt`;
-  `update_alt_rejected_partial` — `Config.update` rejects as well IF the `as_dict` cache is empty
-  (`update_with_stale_cache_accepts`);
+  `update_alt_rejected` — `Config.update` rejects as well, in every state of the object;
 * `save_load_roundtrip_partial` — ints, finite floats and non-numeric trimmed strings come back with value and
   type when the cache is fresh (`roundtrip_numeric_string_changes_type`, `roundtrip_bool_changes_type`,
-  `roundtrip_stale_cache_saves_old_value`, `save_none_raises`, `save_uppercase_key_raises`);
+  `save_none_raises`, `save_uppercase_key_raises`);
 * `all_defaults_in_alt` (generated table, `decide +kernel`) and `stock_defaults_construct_ok`;
 * `config_path_precedence`. -/
 namespace Andes.Config
@@ -414,13 +413,13 @@ theorem firstBad_of_all {N : Numerals F} {alt : List (String × List (Val F))} {
       simp only at this
       simp [this, ih']
 
-/-- `check()` with an EMPTY cache validates the live fields -/
-theorem check_fresh {N : Numerals F} {c c' : Cfg F} (hc : c.cache = []) (h : c.check N = .ok c') :
+/-- `check()` validates the live fields, whatever the cache holds -/
+theorem check_fresh {N : Numerals F} {c c' : Cfg F} (h : c.check N = .ok c') :
     c'.fields = c.fields ∧ c'.alt = c.alt ∧
     ∀ kv ∈ publicOf c.fields, ∀ a, aget kv.1 c.alt = some a → memAlt N kv.2 a = true := by
   unfold Cfg.check at h
-  have hd : c.asDict false = { c with cache := publicOf c.fields } := by
-    unfold Cfg.asDict; simp [hc]
+  have hd : c.asDict true = { c with cache := publicOf c.fields } := by
+    unfold Cfg.asDict; simp
   simp only [hd] at h
   split at h
   · cases h
@@ -439,7 +438,7 @@ if the constructor returns, every public field with a tuple/set `_alt` holds a m
 theorem alt_rejected {N : Numerals F} {d : Decl F} {dict : List (String × Val F)} {rc : Option Rc} {c : Cfg F}
     (h : construct N d dict rc = .ok c) :
     ∀ kv ∈ publicOf c.fields, ∀ a, aget kv.1 d.alt = some a → memAlt N kv.2 a = true := by
-  have := check_fresh (build_cache N d dict rc) h
+  have := check_fresh h
   obtain ⟨hf, _, hall⟩ := this
   rw [hf]
   exact hall
@@ -456,15 +455,15 @@ theorem updateFields_cache (N : Numerals F) (c : Cfg F) (kvs : List (String × V
     have := ih (c.set N kv.1 kv.2)
     exact this
 
-/-- `Config.update` rejects values outside `_alt` — `_partial`: only while the `as_dict` cache is EMPTY.
-Full statement (false on the real code, see `update_with_stale_cache_accepts`):
-`c.update N kvs = .ok c' → ∀ kv ∈ publicOf c'.fields, ∀ a, aget kv.1 c.alt = some a → memAlt N kv.2 a` -/
-theorem update_alt_rejected_partial {N : Numerals F} {c c' : Cfg F} {kvs : List (String × Val F)}
-    (hc : c.cache = []) (h : c.update N kvs = .ok c') :
+/-- **`Config.update` rejects values outside `_alt`**, in every state of the object (full strength since the
+repair of `Config.check`, which read the cached dictionary filled by the constructor's own check:
+`known_findings.json`, `alt-not-rejected-by-update`, fixed) -/
+theorem update_alt_rejected {N : Numerals F} {c c' : Cfg F} {kvs : List (String × Val F)}
+    (h : c.update N kvs = .ok c') :
     ∀ kv ∈ publicOf c'.fields, ∀ a, aget kv.1 c.alt = some a → memAlt N kv.2 a = true := by
   unfold Cfg.update at h
-  obtain ⟨h1, h2⟩ := updateFields_cache N c kvs
-  obtain ⟨hf, _, hall⟩ := check_fresh (h1.trans hc) h
+  obtain ⟨_, h2⟩ := updateFields_cache N c kvs
+  obtain ⟨hf, _, hall⟩ := check_fresh h
   rw [hf, ← h2]
   exact hall
 
@@ -472,14 +471,10 @@ theorem update_alt_rejected_partial {N : Numerals F} {c c' : Cfg F} {kvs : List 
 def afterCtor : Cfg Nat :=
   ⟨"System", [("ipadd", .int 1)], [("ipadd", .int 1)], [("ipadd", [.int 0, .int 1])]⟩
 
-/-- DEFECT: after the constructor's `check()` the cache is non-empty, `check()` keeps reading it, and
-`Config.update(ipadd=5)` is accepted although 5 is outside `(0, 1)` -/
-theorem update_with_stale_cache_accepts :
-    ((afterCtor.update numSimple [("ipadd", .int 5)]).toOption.map (fun c => c.fields))
-      = some [("ipadd", .int 5)] := by decide +kernel
-
-example : errOf (({ afterCtor with cache := [] }).update numSimple [("ipadd", .int 5)])
-    = some (Err.notAChoice, "ipadd") := by decide +kernel
+/-- the input that was accepted on the pinned tree (cache filled by the constructor, `Config.update(ipadd=5)`
+with 5 outside `(0, 1)`) is rejected now -/
+theorem update_after_constructor_rejects :
+    errOf (afterCtor.update numSimple [("ipadd", .int 5)]) = some (Err.notAChoice, "ipadd") := by decide +kernel
 
 /-! ## 6. save, then load into a new system -/
 
@@ -555,15 +550,15 @@ theorem aget_mem {α : Type} {k : String} {v : α} {l : List (String × α)} (h 
 
 theorem startsUnderscore_reserved : ∀ k ∈ reserved, startsUnderscore k = true := by decide +kernel
 
-/-- **save → load** (`_partial`).  For EVERY config object whose `as_dict` cache is fresh and whose public
+/-- **save → load** (`_partial`).  For EVERY config object, in every state of its `as_dict` cache, whose public
 fields have lower-case names and values that are ints, finite floats or trimmed non-numeric strings: if
 `collect_config` succeeds, a config of the same name constructed from the saved file (any defaults, any
 other sections in the file) holds every public field with the same value AND type.
 Missing for the full statement of C20 (each refuted on the real code by a theorem below): numeric-looking
-strings, booleans, `None`, untrimmed strings, upper-case names, and the stale cache. -/
+strings, booleans, `None`, untrimmed strings, upper-case names.  (The stale-cache exclusion is gone since the
+repair of `collect_config`: `save-stale-cache`, fixed.) -/
 theorem save_load_roundtrip_partial {N : Numerals F} {fin : F → Prop} (L : Laws N fin)
     (c c' : Cfg F) (s : Sect) (d : Decl F) (ss : List (String × Sect))
-    (hfresh : (c.asDict false).cache = publicOf c.fields)
     (hsave : c.saveSect N = .ok (c', s))
     (hkeys : ∀ kv ∈ publicOf c.fields, lower kv.1 = kv.1)
     (hvals : ∀ kv ∈ publicOf c.fields, Keeps N fin kv.2)
@@ -591,6 +586,7 @@ theorem save_load_roundtrip_partial {N : Numerals F} {fin : F → Prop} (L : Law
   have hmem : (k, v) ∈ publicOf c.fields := aget_mem hpubget
   obtain ⟨t, hprint, hback⟩ := keeps_roundtrip L (hvals (k, v) hmem)
   unfold Cfg.saveSect at hsave
+  have hfresh : (c.asDict true).cache = publicOf c.fields := by unfold Cfg.asDict; simp
   simp only [hfresh] at hsave
   cases hsv : saveKVs N (publicOf c.fields) [] with
   | error e => simp [hsv] at hsave
@@ -633,10 +629,10 @@ theorem roundtrip_bool_changes_type :
     saveThenLoad numSimple ⟨"TDS", [("fixt", .bool false)], [], []⟩ = some [("fixt", .str "False")] := by
   decide +kernel
 
-/-- DEFECT: with the cache filled by the constructor's `check()`, a run-time change (`mva = 200`,
-`fixt = False`) is not saved at all: the OLD value is written and comes back -/
-theorem roundtrip_stale_cache_saves_old_value :
-    saveThenLoad numSimple ⟨"System", [("mva", .int 200)], [("mva", .int 100)], []⟩ = some [("mva", .int 100)] := by
+/-- the input that lost a run-time change on the pinned tree (cache filled by the constructor's `check()`, then
+`mva = 200`): the NEW value is written and comes back -/
+theorem roundtrip_after_runtime_change_witness :
+    saveThenLoad numSimple ⟨"System", [("mva", .int 200)], [("mva", .int 100)], []⟩ = some [("mva", .int 200)] := by
   decide +kernel
 
 /-- DEFECT: a `None` value makes `save_config` raise TypeError -/
@@ -714,8 +710,8 @@ theorem add_mem (N : Numerals F) (c : Cfg F) (kvs : List (String × Val F)) :
 theorem defaults_construct_ok (N : Numerals F) [DecidableEq F] (d : Decl F) (h : declOk N d = true) :
     ∃ c, construct N d [] none = .ok c := by
   unfold construct Cfg.check
-  have hb : (build N d [] none).asDict false = { build N d [] none with cache := publicOf (build N d [] none).fields } := by
-    unfold Cfg.asDict; simp [build_cache]
+  have hb : (build N d [] none).asDict true = { build N d [] none with cache := publicOf (build N d [] none).fields } := by
+    unfold Cfg.asDict; simp
   simp only [hb]
   have hnone : firstBad N (build N d [] none).alt (publicOf (build N d [] none).fields) = none := by
     apply firstBad_of_all
